@@ -15,8 +15,9 @@ import (
 const sentinel = -987654321
 
 type val struct {
-	s sortints.SortedInts // what the library sees; spare capacity is filled with sentinel
-	m []int               // model: sorted, distinct
+	s   sortints.SortedInts // what the library sees; spare capacity is filled with sentinel
+	m   []int               // model: sorted, distinct
+	raw bool                // s is the very slice the library returned (no sentinel-filled spare capacity)
 }
 
 func modelOf(xs []int) []int {
@@ -65,10 +66,34 @@ func spareIntact(s sortints.SortedInts) bool {
 }
 
 type engine struct {
-	r    *driver.Run
-	pool []*val
-	lo   int
-	hi   int
+	r       *driver.Run
+	pool    []*val
+	lo      int
+	hi      int
+	keepRaw bool // results enter the pool as returned (aliasing with arguments shows after a later in-place mutation)
+}
+
+// keep stores a result: as returned by the library in keepRaw runs, as a deep copy otherwise.
+func (e *engine) keep(got sortints.SortedInts, want []int) {
+	if !e.keepRaw {
+		e.put(want)
+		return
+	}
+	v := &val{s: got, m: append([]int(nil), want...), raw: true}
+	if len(e.pool) < 6 {
+		e.pool = append(e.pool, v)
+		return
+	}
+	e.pool[e.r.T.Draw(len(e.pool))] = v
+}
+
+// rewrap gives a mutated receiver fresh sentinel-filled spare capacity (deep-copy runs only).
+func (e *engine) rewrap(a *val) {
+	if e.keepRaw {
+		a.raw = true
+		return
+	}
+	a.s = withCap(a.m, e.extra())
 }
 
 func (e *engine) drawInt() int { return e.lo + e.r.T.Draw(e.hi-e.lo+1) }
@@ -134,9 +159,12 @@ func (e *engine) verifyOthers(what string, snap [][]int, except int) {
 			continue
 		}
 		if !eq(v.s, snap[i]) || !eq(v.s, v.m) {
-			e.r.Fail("interference", opName(what), "%s changed value #%d, which it must not touch: now %v, was %v", what, i, []int(v.s), snap[i])
+			if e.keepRaw {
+				e.r.Probe("interference-seen-in-a-run-that-keeps-results-as-returned")
+			}
+			e.r.Fail("interference", opName(what), "%s changed value #%d, which it must not touch: now %v, was %v (results kept as returned: %v)", what, i, []int(v.s), snap[i], e.keepRaw)
 		}
-		if !spareIntact(v.s) {
+		if !v.raw && !spareIntact(v.s) {
 			e.r.Fail("interference", opName(what)+" spare capacity", "%s wrote into the spare capacity of value #%d (%v)", what, i, []int(v.s[:cap(v.s)]))
 		}
 	}
@@ -204,7 +232,8 @@ func runSets(r *driver.Run) {
 		e.lo, e.hi = -1000000, 1000000
 	}
 	nops := t.Range(1, 50)
-	r.Logf("config values in [%d,%d], %d ops", e.lo, e.hi, nops)
+	e.keepRaw = t.Chance(1, 2)
+	r.Logf("config values in [%d,%d], %d ops, results kept as returned=%v", e.lo, e.hi, nops, e.keepRaw)
 	e.put(modelOf(e.drawList(6)))
 	mutations := 0
 	for op := 0; op < nops; op++ {
@@ -225,7 +254,7 @@ func runSets(r *driver.Run) {
 				r.Fail("argument-modified", "NewSortedInts", "%s modified its argument list: now %v", what, xs)
 			}
 			e.verifyOthers(what, snap, -1)
-			e.put(modelOf(orig))
+			e.keep(got, modelOf(orig))
 		case 1: // Range
 			start, end := e.drawInt()%60, e.drawInt()%60
 			step := t.Range(0, 9) - 4
@@ -261,7 +290,7 @@ func runSets(r *driver.Run) {
 				want = modelOf(want)
 				e.checkResult(what, got, want)
 				e.verifyOthers(what, snap, -1)
-				e.put(want)
+				e.keep(got, want)
 			}
 		case 2, 3: // Add
 			xs := e.drawList(5)
@@ -282,7 +311,7 @@ func runSets(r *driver.Run) {
 				r.Fail("argument-modified", "Add", "%s modified its argument list: now %v", what, xs)
 			}
 			e.verifyOthers(what, snap, ai)
-			a.s = withCap(a.m, e.extra())
+			e.rewrap(a)
 			mutations++
 		case 4: // Remove
 			x := e.drawInt()
@@ -294,7 +323,7 @@ func runSets(r *driver.Run) {
 			a.m = setOp("minus", a.m, []int{x})
 			e.checkResult(what, a.s, a.m)
 			e.verifyOthers(what, snap, ai)
-			a.s = withCap(a.m, e.extra())
+			e.rewrap(a)
 			mutations++
 		case 5, 6: // method Union
 			what = fmt.Sprintf("#%d%v.Union(#%d%v) [cap-len %d]", ai, a.m, bi, b.m, cap(a.s)-len(a.s))
@@ -310,7 +339,7 @@ func runSets(r *driver.Run) {
 				r.Fail("argument-modified", "Union(method)", "%s modified its argument: now %v", what, []int(b.s))
 			}
 			e.verifyOthers(what, snap, ai)
-			a.s = withCap(a.m, e.extra())
+			e.rewrap(a)
 			mutations++
 		case 7, 8, 9, 10: // binary functions
 			name := []string{"union", "inter", "minus", "xor"}[k-7]
@@ -322,7 +351,7 @@ func runSets(r *driver.Run) {
 			want := setOp(name, a.m, b.m)
 			e.checkResult(what, got, want)
 			e.verifyOthers(what, snap, -1)
-			e.put(want)
+			e.keep(got, want)
 		case 11:
 			what = fmt.Sprintf("IntersectionSize(#%d%v, #%d%v)", ai, a.m, bi, b.m)
 			var got int
@@ -346,7 +375,7 @@ func runSets(r *driver.Run) {
 			}
 			e.checkResult(what, got, want)
 			e.verifyOthers(what, snap, -1)
-			e.put(want)
+			e.keep(got, want)
 		case 13:
 			x := e.drawInt()
 			if t.Chance(1, 2) && len(a.m) > 0 {
@@ -376,7 +405,7 @@ func runSets(r *driver.Run) {
 			if want := len(setOp("minus", bb.m, a.m)) == 0; got != want {
 				r.Fail("wrong-result", "ContainsSorted", "%s = %v, want %v", what, got, want)
 			}
-			if !eq(bb.s, bb.m) || !spareIntact(bb.s) {
+			if !eq(bb.s, bb.m) || (!bb.raw && !spareIntact(bb.s)) {
 				r.Fail("argument-modified", "ContainsSorted", "%s modified its second argument", what)
 			}
 			e.verifyOthers(what, snap, -1)
@@ -388,7 +417,7 @@ func runSets(r *driver.Run) {
 			r.Must("Add", budget, func() { z.Add(xs...) })
 			e.checkResult(what, z, modelOf(orig))
 			e.verifyOthers(what, snap, -1)
-			e.put(modelOf(orig))
+			e.keep(z, modelOf(orig))
 		}
 		r.Logf("%s", what)
 	}
@@ -413,7 +442,7 @@ func runSort(r *driver.Run) {
 	default:
 		n = []int{0, 1, 2, 11, 12, 13, 40, 41, 50, 51, 4096}[t.Draw(11)]
 	}
-	shape := t.Draw(8)
+	shape := t.Draw(9)
 	xs := make([]int, n)
 	vr := []int{2, 5, 1000, 1 << 40}[t.Draw(4)]
 	for i := range xs {
@@ -443,6 +472,16 @@ func runSort(r *driver.Run) {
 		default:
 			xs[i] = 7
 		}
+	}
+	if shape == 8 {
+		// quicksort killer: forces the depth limit, i.e. the heapsort fallback
+		xs = killerInput(n)
+		if t.Chance(1, 2) {
+			for i := range xs { // same order type, with duplicates
+				xs[i] /= 2
+			}
+		}
+		r.Probe("sort-quicksort-killer-input")
 	}
 	r.Logf("ints.Sort: n=%d shape=%d", n, shape)
 	want := append([]int(nil), xs...)
@@ -483,8 +522,9 @@ func main() {
 			"Complement is called with n >= 0",
 			"no fault or schedule exists in this code: the simulator contributes seeded histories over long-lived values, the lock-step model, minimisation and replay",
 		},
-		Real:  []string{"package sortints (all exported functions and methods)", "ints.Sort"},
-		Stubs: []string{"none"},
+		Real:       []string{"package sortints (all exported functions and methods)", "ints.Sort"},
+		ProbeFuncs: []string{"ints.heapSort", "ints.siftDown", "ints.insertionSort", "ints.doPivot", "ints.medianOfThree", "sortints.SortedInts.Union", "sortints.*SortedInts.Union"},
+		Stubs:      []string{"none"},
 		Plan: func(tier string) driver.Plan {
 			if tier == "thorough" {
 				return driver.Plan{Random: 2000000, WallLimit: 20 * time.Minute}
